@@ -1,7 +1,8 @@
 (* The only file with Extraction commands. ExtrOcamlBasic only: bool, option, list, prod, unit,
    sumbool map to OCaml's; nat/N/Z/positive stay inductive. No Extract Constant. *)
 Require Import ExtrOcamlBasic.
-From NinjaV Require Import Base.Bytes Canon.CanonDefs.
+From NinjaV Require Import Base.Bytes Canon.CanonDefs Shell.EscDefs Shell.ShModel Shell.JsonDefs.
 Extraction Language OCaml.
 Set Extraction KeepSingleton.
-Extraction "model.ml" Z.add N.add Nat.add canon canon_spec split_slash nf parse_path.
+Extraction "model.ml" Z.add N.add Nat.add canon canon_spec split_slash nf parse_path
+  shell_escape make_path_list sh_words json_encode json_decode utf8_valid.
